@@ -365,6 +365,14 @@ class Canon:
         return None
 
 
+class ProvCanon(Canon):
+    """Canonicaliser whose c() is the provenance form p(): locals assigned
+    from calls are seen through (value comparisons, not mutation targets)."""
+
+    def c(self, e, frame, _depth=0):
+        return self.p(e, frame, _depth)
+
+
 def _match(s, i):
     """index of the bracket closing the '[' at s[i]"""
     depth = 0
@@ -879,3 +887,21 @@ def affine_cmp(canon, l, op, r, fr, env=None):
     if op == '<':
         return ('%r <= 0' % (a.scale(-1),), False)
     return ('%r <= 0' % (a,), True)
+
+
+def _aff(x):
+    if isinstance(x, Affine):
+        return x
+    if isinstance(x, (int, float, Fraction)):
+        return Affine({}, x)
+    return Affine({x: 1})
+
+
+def lit_le(a, b):
+    """canonical literal for a <= b (a, b: term strings, numbers or Affine)"""
+    return Lit('%r <= 0' % (_aff(a) - _aff(b),), True)
+
+
+def lit_lt(a, b):
+    """canonical literal for a < b"""
+    return Lit('%r <= 0' % (_aff(b) - _aff(a),), False)
